@@ -256,6 +256,12 @@ func Universe(quick bool) []Case {
 		}
 	}
 	var cases []Case
+	// every non-negative integer of the sweep once more held by basicnode's uint-backed node
+	for _, v := range ref.Sweep(ref.IntsFull()) {
+		if ref.HasNonNegInt(v) {
+			cases = append(cases, Case{V: v, Impl: "basic-newuint"})
+		}
+	}
 	for _, v := range vals {
 		for _, impl := range ref.GenericImpls {
 			if hasKind(v, ref.KUint) && impl == "basic-kind" && v.K == ref.KUint {
@@ -306,6 +312,7 @@ func Main(r *core.Run) {
 		r.Report("value", c, fs)
 	})
 	boundValues(r)
+	histories(r)
 	r.Sample(map[string]any{"value": cases[len(cases)/2].V.String(), "impl": cases[len(cases)/2].Impl})
 	r.Sample(map[string]any{"value": cases[len(cases)/3].V.String(), "impl": cases[len(cases)/3].Impl})
 	r.Set("cases", len(cases))
@@ -340,6 +347,11 @@ func nontrivial(v ref.Val) bool {
 }
 
 func Replay(r *core.Run, raw json.RawMessage) {
+	var hc HCase
+	if json.Unmarshal(raw, &hc) == nil && hc.Fault != "" {
+		r.Report("history", hc, CheckHistory(hc))
+		return
+	}
 	var bc BoundCase
 	if json.Unmarshal(raw, &bc) == nil && bc.Type != "" {
 		r.Report("bound", bc, CheckBound(bc))
